@@ -47,9 +47,9 @@ def oracle_model(res, ast, m, rng, n_env, cap, cfg=False, first_envs=()):
         """an All-like node whose set() of arguments merged two of them (value < number of children)"""
         return [x.id for x in all_nodes(p) if not is_var(x) and isinstance(x, pg.All) and x.value != len(x.propositions)]
     if not is_var(m2) and merged(m2) and not merged(m):
-        # finding D15, evaluation face: two children with distinct generated ids (they differed only in the sign ARGUMENT)
-        # come back with one id, and All's len(set(...)) drops
-        return f"D15-merge: after the round trip All-like node(s) {merged(m2)} list two children under one generated id"
+        # the evaluation-changing face finding D15 had before fix D16 (All counts every operand): two children come back
+        # with one generated id and the All's threshold drops below the number of its children
+        return f"after the round trip All-like node(s) {merged(m2)} have a threshold below the number of their children"
     l1 = [(l.id, l.bounds.as_tuple()) for l in leaves_of(m)]
     l2 = [(l.id, l.bounds.as_tuple()) for l in leaves_of(m2)] if not is_var(m2) else [(m2.id, m2.bounds.as_tuple())]
     if l1 != l2:
@@ -155,10 +155,7 @@ def run(res, tier, seed):
         if nontrivial(ast):
             res.nt(canon(m)); res.count("nontrivial")
         problem = oracle_model(res, ast, m, rng, 8 if tier == "quick" else 25, 0 if tier == "quick" else 300)
-        if problem and problem.startswith("D15-merge") and d15_nodes(m):
-            res.count("main_stream_D15_merge")
-            res.known_finding("D15", f"generated ids are not stable under the JSON round trip when the sign was passed explicitly (every negate()/Not result): e.g. {m!r}: {problem}"[:420])
-        elif problem:
+        if problem:
             res.violation("oracle", f"JSON round trip of {m!r}: {problem}", {"op": "roundtrip", "model": ast_json(ast), "cfg": False, "problem": problem})
         add_corr(m, False)
         res.sample({"model": repr(m), "json": json.dumps(m.to_json())[:300]})
